@@ -1,5 +1,7 @@
 (** Proofs about the link models: wire framing (F1-F3), Batcher (B1), routing (E1),
-    End operator per-receiver sequence (E2) and its corollaries (E3). *)
+    End operator per-receiver sequence (E2), the adaptive mode (E2b) and corollaries (E3).
+    Everything about `Batcher`/`End` holds for the three batch modes and for EVERY clock
+    ([clock], [t0] are universally quantified). *)
 From Noir Require Import Base.Elem Model.End Model.Framing.
 From Coq Require Import NArith ZifyBool.
 Local Open Scope Z_scope.
@@ -148,13 +150,15 @@ Local Open Scope nat_scope.
 Section BatcherProofs.
   Context {A : Type}.
 
-  Fixpoint brun (m : batch_mode) (buf : list (elem A)) (l : list (elem A))
-    : list (elem A) * list (list (elem A)) :=
+  (** one batcher fed a list of elements, the k-th enqueue (counting from [k]) reading
+      [clock k] *)
+  Fixpoint brun (clock : nat -> N) (m : batch_mode) (k : nat) (bs : @bstate A) (l : list (elem A))
+    : @bstate A * list (list (elem A)) :=
     match l with
-    | [] => (buf, [])
+    | [] => (bs, [])
     | e :: l' =>
-        let '(b1, s1) := enqueue m buf e in
-        let '(b2, s2) := brun m b1 l' in
+        let '(b1, s1) := enqueue m (clock k) bs e in
+        let '(b2, s2) := brun clock m (S k) b1 l' in
         (b2, s1 ++ s2)
     end.
 
@@ -162,100 +166,164 @@ Section BatcherProofs.
   Definition mode_ok (m : batch_mode) (buf : list (elem A)) : Prop :=
     m = BSingle -> buf = [].
 
-  Lemma enqueue_spec m buf e buf1 sent :
-    enqueue m buf e = (buf1, sent) ->
-    mode_ok m buf ->
-    mode_ok m buf1 /\ concat sent ++ buf1 = buf ++ [e].
+  Lemma flush_snoc now (buf : list (elem A)) e ls :
+    flush now (buf ++ [e], ls) = (([], now), [buf ++ [e]]).
+  Proof. unfold flush. cbn [fst]. destruct buf; reflexivity. Qed.
+
+  (** an empty flush changes nothing (not even `last_send`); a non-empty one sends the whole
+      buffer as one batch and records the time *)
+  Theorem flush_spec : forall now (bs : @bstate A),
+    flush now bs = match fst bs with [] => (bs, []) | _ => (([], now), [fst bs]) end /\
+    fst (fst (flush now bs)) = [] /\
+    snd (fst (flush now bs)) = (match fst bs with [] => snd bs | _ => now end) /\
+    snd (flush now bs) = (match fst bs with [] => [] | _ => [fst bs] end) /\
+    concat (snd (flush now bs)) = fst bs /\
+    Forall (fun b => b <> []) (snd (flush now bs)).
   Proof.
-    unfold enqueue, mode_ok. destruct m as [n|].
-    - destruct (Nat.leb n (length (buf ++ [e]))); intros H _; inversion H; subst; split;
-        try discriminate; cbn [concat app]; now rewrite ?app_nil_r.
-    - intros H Hm. inversion H; subst. rewrite (Hm eq_refl). split; [reflexivity|].
-      reflexivity.
+    intros now [[|e buf] ls]; unfold flush; cbn [fst snd concat app]; repeat split;
+      try constructor; try discriminate; try constructor. now rewrite app_nil_r.
+  Qed.
+
+  (** the three possible outcomes of an enqueue *)
+  Lemma enqueue_cases m now (bs : @bstate A) e :
+    (m = BSingle /\ enqueue m now bs e = (bs, [[e]])) \/
+    (m <> BSingle /\ enqueue m now bs e = ((fst bs ++ [e], snd bs), []) /\
+       length (fst bs ++ [e]) < max_size m) \/
+    (m <> BSingle /\ enqueue m now bs e = (([], now), [fst bs ++ [e]]) /\
+       (max_size m <= length (fst bs ++ [e]) \/
+        exists n d, m = BAdaptive n d /\ (d < now - snd bs)%N)).
+  Proof.
+    destruct m as [n|n d|]; unfold enqueue; cbv zeta; cbn [fst snd max_size].
+    - right. destruct (Nat.leb_spec n (length (fst bs ++ [e]))) as [H|H].
+      + right. rewrite flush_snoc. split; [discriminate|]. split; [reflexivity|]. now left.
+      + left. split; [discriminate|]. split; [reflexivity|exact H].
+    - right. destruct (Nat.leb_spec n (length (fst bs ++ [e]))) as [H|H]; cbn [orb].
+      + right. rewrite flush_snoc. split; [discriminate|]. split; [reflexivity|]. now left.
+      + destruct (N.ltb_spec d (now - snd bs)) as [H'|H'].
+        * right. rewrite flush_snoc. split; [discriminate|]. split; [reflexivity|].
+          right. exists n, d. split; [reflexivity|exact H'].
+        * left. split; [discriminate|]. split; [reflexivity|exact H].
+    - left. split; reflexivity.
+  Qed.
+
+  Lemma enqueue_spec m now (bs bs1 : @bstate A) e sent :
+    enqueue m now bs e = (bs1, sent) ->
+    mode_ok m (fst bs) ->
+    mode_ok m (fst bs1) /\ concat sent ++ fst bs1 = fst bs ++ [e].
+  Proof.
+    unfold mode_ok. intros H Hm.
+    destruct (enqueue_cases m now bs e) as [[Em E]|[[Em [E _]]|[Em [E _]]]];
+      rewrite E in H; inversion H; subst bs1 sent; cbn [fst snd concat app].
+    - split; [exact Hm|]. now rewrite (Hm Em).
+    - split; [intros; contradiction|reflexivity].
+    - split; [intros; contradiction|]. now rewrite !app_nil_r.
   Qed.
 
   (** COUNTEREXAMPLE to the unconditional statement: in [BSingle] mode a non-empty initial
       buffer is never sent, so the order is not [buf ++ l]. *)
   Example batcher_sequence_counterexample :
-    let '(buf', sent) := brun BSingle [Wm 1%Z] [Wm 2%Z : elem A] in
-    concat sent ++ buf' = [Wm 2%Z; Wm 1%Z] /\ concat sent ++ buf' <> [Wm 1%Z] ++ [Wm 2%Z].
+    let '(bs', sent) := brun (fun _ => 0%N) BSingle 0 ([Wm 1%Z], 0%N) [Wm 2%Z : elem A] in
+    concat sent ++ fst bs' = [Wm 2%Z; Wm 1%Z] /\ concat sent ++ fst bs' <> [Wm 1%Z] ++ [Wm 2%Z].
   Proof. cbn. split; [reflexivity|discriminate]. Qed.
 
-  Theorem batcher_sequence : forall m buf l buf' sent,
-    mode_ok m buf ->
-    brun m buf l = (buf', sent) -> concat sent ++ buf' = buf ++ l.
+  (** for every mode and EVERY clock: the clock decides only where batches are cut *)
+  Theorem batcher_sequence : forall clock m k bs l bs' sent,
+    mode_ok m (fst bs) ->
+    brun clock m k bs l = (bs', sent) -> concat sent ++ fst bs' = fst bs ++ l.
   Proof.
-    intros m buf l; revert buf. induction l as [|e l IH]; intros buf buf' sent Hm H; cbn [brun] in H.
+    intros clock m k bs l; revert k bs.
+    induction l as [|e l IH]; intros k bs bs' sent Hm H; cbn [brun] in H.
     - inversion H; subst. cbn [concat app]. now rewrite app_nil_r.
-    - destruct (enqueue m buf e) as [b1 s1] eqn:E1.
-      destruct (brun m b1 l) as [b2 s2] eqn:E2. inversion H; subst.
-      destruct (enqueue_spec _ _ _ _ _ E1 Hm) as [Hm1 Hs].
-      specialize (IH _ _ _ Hm1 E2).
+    - destruct (enqueue m (clock k) bs e) as [b1 s1] eqn:E1.
+      destruct (brun clock m (S k) b1 l) as [b2 s2] eqn:E2. inversion H; subst.
+      destruct (enqueue_spec _ _ _ _ _ _ E1 Hm) as [Hm1 Hs].
+      specialize (IH _ _ _ _ Hm1 E2).
       rewrite concat_app, <- app_assoc, IH, app_assoc, Hs, <- app_assoc. reflexivity.
   Qed.
 
-  (** the [BFixed] instance needs no side condition at all *)
-  Corollary batcher_sequence_fixed : forall n buf l buf' sent,
-    brun (BFixed n) buf l = (buf', sent) -> concat sent ++ buf' = buf ++ l.
-  Proof. intros n buf l buf' sent. apply batcher_sequence. discriminate. Qed.
+  (** the [BFixed] and [BAdaptive] instances need no side condition at all *)
+  Corollary batcher_sequence_fixed : forall clock n k bs l bs' sent,
+    brun clock (BFixed n) k bs l = (bs', sent) -> concat sent ++ fst bs' = fst bs ++ l.
+  Proof. intros clock n k bs l bs' sent. apply batcher_sequence. discriminate. Qed.
+
+  Corollary batcher_sequence_adaptive : forall clock n d k bs l bs' sent,
+    brun clock (BAdaptive n d) k bs l = (bs', sent) -> concat sent ++ fst bs' = fst bs ++ l.
+  Proof. intros clock n d k bs l bs' sent. apply batcher_sequence. discriminate. Qed.
 
   (** holds for every mode, also [BFixed 0] *)
-  Theorem batcher_batches_nonempty : forall m buf l buf' sent,
-    brun m buf l = (buf', sent) -> Forall (fun b => b <> []) sent.
+  Theorem batcher_batches_nonempty : forall clock m k bs l bs' sent,
+    brun clock m k bs l = (bs', sent) -> Forall (fun b => b <> []) sent.
   Proof.
-    intros m buf l; revert buf. induction l as [|e l IH]; intros buf buf' sent H; cbn [brun] in H.
+    intros clock m k bs l; revert k bs.
+    induction l as [|e l IH]; intros k bs bs' sent H; cbn [brun] in H.
     - inversion H; constructor.
-    - destruct (enqueue m buf e) as [b1 s1] eqn:E1.
-      destruct (brun m b1 l) as [b2 s2] eqn:E2. inversion H; subst.
+    - destruct (enqueue m (clock k) bs e) as [b1 s1] eqn:E1.
+      destruct (brun clock m (S k) b1 l) as [b2 s2] eqn:E2. inversion H; subst.
       apply Forall_app; split; [|eapply IH; eassumption].
-      unfold enqueue in E1. destruct m as [n|].
-      + destruct (Nat.leb n (length (buf ++ [e]))); inversion E1; subst; constructor; [|constructor].
-        destruct buf; discriminate.
-      + inversion E1; subst. constructor; [discriminate|constructor].
+      destruct (enqueue_cases m (clock k) bs e) as [[_ E]|[[_ [E _]]|[_ [E _]]]];
+        rewrite E in E1; inversion E1; subst; repeat constructor; try discriminate.
+      destruct (fst bs); discriminate.
   Qed.
 
-  Theorem batcher_fixed_bound : forall n buf l buf' sent,
-    1 <= n -> length buf < n ->
-    brun (BFixed n) buf l = (buf', sent) ->
-    Forall (fun b => length b <= n) sent /\ length buf' < n.
+  (** every batch has at most [max_size m] elements and the buffer stays below it, for every
+      mode with a positive size and every clock *)
+  Theorem batcher_bound : forall clock m k bs l bs' sent,
+    1 <= max_size m -> length (fst bs) < max_size m ->
+    brun clock m k bs l = (bs', sent) ->
+    Forall (fun b => 1 <= length b <= max_size m) sent /\ length (fst bs') < max_size m.
   Proof.
-    intros n buf l; revert buf. induction l as [|e l IH]; intros buf buf' sent Hn Hb H; cbn [brun] in H.
+    intros clock m k bs l; revert k bs.
+    induction l as [|e l IH]; intros k bs bs' sent Hn Hb H; cbn [brun] in H.
     - inversion H; subst. split; [constructor|assumption].
-    - destruct (enqueue (BFixed n) buf e) as [b1 s1] eqn:E1.
-      destruct (brun (BFixed n) b1 l) as [b2 s2] eqn:E2. inversion H; subst.
-      unfold enqueue in E1.
-      assert (Hl : length (buf ++ [e]) = S (length buf)) by (rewrite app_length; cbn [length]; lia).
-      destruct (Nat.leb_spec n (length (buf ++ [e]))) as [Hle|Hlt]; inversion E1; subst.
-      + destruct (IH [] _ _ Hn ltac:(cbn [length]; lia) E2) as [F Hb'].
+    - destruct (enqueue m (clock k) bs e) as [b1 s1] eqn:E1.
+      destruct (brun clock m (S k) b1 l) as [b2 s2] eqn:E2. inversion H; subst.
+      assert (Hl : length (fst bs ++ [e]) = S (length (fst bs)))
+        by (rewrite app_length; cbn [length]; lia).
+      destruct (enqueue_cases m (clock k) bs e) as [[Em E]|[[_ [E Hlt]]|[_ [E _]]]];
+        rewrite E in E1; inversion E1; subst b1 s1.
+      + destruct (IH _ _ _ _ Hn Hb E2) as [F Hb']. split; [|exact Hb'].
+        subst m. constructor; [cbn [length max_size]; lia|exact F].
+      + destruct (IH _ (fst bs ++ [e], snd bs) _ _ Hn Hlt E2) as [F Hb']. split; assumption.
+      + destruct (IH _ ([], clock k) _ _ Hn ltac:(cbn [fst length]; lia) E2) as [F Hb'].
         split; [|exact Hb']. constructor; [lia|exact F].
-      + destruct (IH _ _ _ Hn Hlt E2) as [F Hb']. split; assumption.
   Qed.
+
+  Theorem batcher_fixed_bound : forall clock n k bs l bs' sent,
+    1 <= n -> length (fst bs) < n ->
+    brun clock (BFixed n) k bs l = (bs', sent) ->
+    Forall (fun b => length b <= n) sent /\ length (fst bs') < n.
+  Proof.
+    intros clock n k bs l bs' sent Hn Hb H.
+    destruct (batcher_bound clock (BFixed n) k bs l bs' sent Hn Hb H) as [F Hb'].
+    split; [|exact Hb']. eapply Forall_impl; [|exact F]. cbn [max_size]. intros b Hb0; lia.
+  Qed.
+
+  (** (a) every batch sent in [BAdaptive n d] mode has between 1 and n elements, whatever
+      the clock *)
+  Theorem batcher_adaptive_bound : forall clock n d k bs l bs' sent,
+    1 <= n -> length (fst bs) < n ->
+    brun clock (BAdaptive n d) k bs l = (bs', sent) ->
+    Forall (fun b => 1 <= length b <= n) sent /\ length (fst bs') < n.
+  Proof. intros clock n d. exact (batcher_bound clock (BAdaptive n d)). Qed.
 
   (** every batch sent in [BFixed n] mode (n >= 1, buffer below n) has exactly n elements *)
-  Theorem batcher_fixed_exact : forall n buf l buf' sent,
-    1 <= n -> length buf < n ->
-    brun (BFixed n) buf l = (buf', sent) ->
+  Theorem batcher_fixed_exact : forall clock n k bs l bs' sent,
+    1 <= n -> length (fst bs) < n ->
+    brun clock (BFixed n) k bs l = (bs', sent) ->
     Forall (fun b => length b = n) sent.
   Proof.
-    intros n buf l; revert buf. induction l as [|e l IH]; intros buf buf' sent Hn Hb H; cbn [brun] in H.
+    intros clock n k bs l; revert k bs.
+    induction l as [|e l IH]; intros k bs bs' sent Hn Hb H; cbn [brun] in H.
     - inversion H; subst. constructor.
-    - destruct (enqueue (BFixed n) buf e) as [b1 s1] eqn:E1.
-      destruct (brun (BFixed n) b1 l) as [b2 s2] eqn:E2. inversion H; subst.
-      unfold enqueue in E1.
-      assert (Hl : length (buf ++ [e]) = S (length buf)) by (rewrite app_length; cbn [length]; lia).
-      destruct (Nat.leb_spec n (length (buf ++ [e]))) as [Hle|Hlt]; inversion E1; subst.
-      + constructor; [lia|]. eapply (IH []); [exact Hn|cbn [length]; lia|exact E2].
-      + eapply IH; eassumption.
-  Qed.
-
-  Theorem flush_spec : forall buf : list (elem A),
-    fst (flush buf) = [] /\
-    snd (flush buf) = (match buf with [] => [] | _ => [buf] end) /\
-    concat (snd (flush buf)) = buf /\
-    Forall (fun b => b <> []) (snd (flush buf)).
-  Proof.
-    intros [|e buf]; cbn [flush fst snd concat app]; repeat split; try constructor;
-      try discriminate; try constructor. now rewrite app_nil_r.
+    - destruct (enqueue (BFixed n) (clock k) bs e) as [b1 s1] eqn:E1.
+      destruct (brun clock (BFixed n) (S k) b1 l) as [b2 s2] eqn:E2. inversion H; subst.
+      unfold enqueue in E1. cbv zeta in E1. cbn [fst snd] in E1.
+      assert (Hl : length (fst bs ++ [e]) = S (length (fst bs)))
+        by (rewrite app_length; cbn [length]; lia).
+      destruct (Nat.leb_spec n (length (fst bs ++ [e]))) as [Hle|Hlt].
+      + rewrite flush_snoc in E1. inversion E1; subst.
+        constructor; [lia|]. eapply (IH _ ([], clock k)); [exact Hn|cbn [fst length]; lia|exact E2].
+      + inversion E1; subst. eapply IH; [exact Hn| |exact E2]. cbn [fst]. exact Hlt.
   Qed.
 End BatcherProofs.
 
@@ -385,13 +453,31 @@ Proof.
     rewrite <- E. apply existsb_exists. exists r. split; [apply in_seq; lia|apply Nat.eqb_refl].
 Qed.
 
+Lemma in_combine_seq {X} (d : X) (l : list X) : forall k j x,
+  In (j, x) (combine (seq k (length l)) l) -> x = nth (j - k) l d /\ k <= j.
+Proof.
+  induction l as [|a l IH]; intros k j x H; cbn [length seq combine] in H; [destruct H|].
+  destruct H as [H|H].
+  - inversion H; subst. rewrite Nat.sub_diag. split; [reflexivity|lia].
+  - destruct (IH _ _ _ H) as [E Hk]. split; [|lia].
+    replace (j - k) with (S (j - S k)) by lia. exact E.
+Qed.
+
+Lemma nth_repeat_lt {X} (x d : X) n r : r < n -> nth r (repeat x n) d = x.
+Proof.
+  intros H. rewrite (nth_indep _ d x) by (now rewrite repeat_length). apply nth_repeat.
+Qed.
+
 Section EndProofs.
   Context {A : Type}.
 
-  Definition buf_at (st : @estate A) (b r : nat) : list (elem A) := nth r (nth b st []) [].
-  Definition inr (st : @estate A) (b r : nat) : Prop :=
+  (** the batcher of replica [r] of block [b], its buffer and its `last_send` *)
+  Definition bs_at (st : @bstates A) (b r : nat) : @bstate A := nth r (nth b st []) ([], 0%N).
+  Definition buf_at (st : @bstates A) (b r : nat) : list (elem A) := fst (bs_at st b r).
+  Definition last_at (st : @bstates A) (b r : nat) : N := snd (bs_at st b r).
+  Definition inr (st : @bstates A) (b r : nat) : Prop :=
     b < length st /\ r < length (nth b st []).
-  Definition allmode (m : batch_mode) (st : @estate A) : Prop :=
+  Definition allmode (m : batch_mode) (st : @bstates A) : Prop :=
     forall b r, mode_ok m (buf_at st b r).
 
   Definition addressed (s : strategy) (blocks : list nat) (b r : nat) (x : elem A * N * N) : bool :=
@@ -404,6 +490,8 @@ Section EndProofs.
 
   Definition flushes (e : elem A) : bool :=
     match e with FAR | Terminate | FlushBatch => true | _ => false end.
+
+  Definition elem_of (x : elem A * N * N) : elem A := fst (fst x).
 
   (** ** received *)
   Lemma received_app (o1 o2 : @eout A) b r :
@@ -421,115 +509,157 @@ Section EndProofs.
   Qed.
 
   (** ** state update *)
-  Lemma buf_at_upd (st : @estate A) db dr buf1 b r :
-    buf_at (upd_nth db (upd_nth dr (fun _ => buf1)) st) b r
+  Lemma bs_at_upd (st : @bstates A) db dr bs1 b r :
+    bs_at (upd_nth db (upd_nth dr (fun _ => bs1)) st) b r
     = if Nat.eqb db b && Nat.ltb b (length st)
-      then (if Nat.eqb dr r && Nat.ltb r (length (nth b st [])) then buf1 else buf_at st b r)
-      else buf_at st b r.
+      then (if Nat.eqb dr r && Nat.ltb r (length (nth b st [])) then bs1 else bs_at st b r)
+      else bs_at st b r.
   Proof.
-    unfold buf_at. rewrite nth_upd_nth.
+    unfold bs_at. rewrite nth_upd_nth.
     destruct (Nat.eqb db b && Nat.ltb b (length st)); [|reflexivity].
     now rewrite nth_upd_nth.
   Qed.
 
-  Lemma inr_upd (st : @estate A) db dr buf1 b r :
-    inr st b r -> inr (upd_nth db (upd_nth dr (fun _ => buf1)) st) b r.
+  Lemma inr_upd (st : @bstates A) db dr bs1 b r :
+    inr st b r -> inr (upd_nth db (upd_nth dr (fun _ => bs1)) st) b r.
   Proof.
     unfold inr. intros [H1 H2]. rewrite upd_nth_length, nth_upd_nth. split; [exact H1|].
     destruct (Nat.eqb db b && Nat.ltb b (length st)); [|exact H2].
     now rewrite upd_nth_length.
   Qed.
 
-  Lemma send_to_spec m (st : @estate A) db dr e st' out b r :
-    send_to m st db dr e = (st', out) -> inr st b r -> allmode m st ->
-    inr st' b r /\ allmode m st' /\
-    received out b r ++ buf_at st' b r
-    = buf_at st b r ++ (if Nat.eqb b db && Nat.eqb r dr then [e] else []).
+  (** what a send towards (db, dr) does to the batcher of (b, r) and to what (b, r) receives *)
+  Lemma send_to_at m now (st : @bstates A) db dr e b r :
+    inr st b r ->
+    inr (fst (send_to m now st db dr e)) b r /\
+    bs_at (fst (send_to m now st db dr e)) b r
+    = (if Nat.eqb b db && Nat.eqb r dr then fst (enqueue m now (bs_at st db dr) e)
+       else bs_at st b r) /\
+    received (snd (send_to m now st db dr e)) b r
+    = (if Nat.eqb b db && Nat.eqb r dr then concat (snd (enqueue m now (bs_at st db dr) e))
+       else []).
   Proof.
-    unfold send_to. fold (buf_at st db dr).
-    destruct (enqueue m (buf_at st db dr) e) as [buf1 sent] eqn:E.
-    intros H Hin Hm. inversion H; subst st' out; clear H.
-    destruct (enqueue_spec _ _ _ _ _ E (Hm db dr)) as [Hm1 Hs].
-    split; [apply inr_upd; exact Hin|]. split.
-    - intros b0 r0. rewrite buf_at_upd.
-      destruct (Nat.eqb db b0 && Nat.ltb b0 (length st)); [|apply Hm].
-      destruct (Nat.eqb dr r0 && Nat.ltb r0 (length (nth b0 st []))); [exact Hm1|apply Hm].
-    - rewrite received_send, buf_at_upd. destruct Hin as [Hb Hr].
-      destruct (Nat.eqb_spec b db) as [->|Hnb].
-      + rewrite Nat.eqb_refl. destruct (Nat.ltb_spec db (length st)); [|lia]. cbn [andb].
-        destruct (Nat.eqb_spec r dr) as [->|Hnr].
-        * rewrite Nat.eqb_refl. destruct (Nat.ltb_spec dr (length (nth db st []))); [|lia].
-          cbn [andb]. exact Hs.
-        * destruct (Nat.eqb_spec dr r); [congruence|]. cbn [andb app]. now rewrite app_nil_r.
-      + destruct (Nat.eqb_spec db b); [congruence|]. cbn [andb app]. now rewrite app_nil_r.
+    intros Hin. unfold send_to. fold (bs_at st db dr).
+    destruct (enqueue m now (bs_at st db dr) e) as [bs1 sent]. cbn [fst snd].
+    split; [apply inr_upd; exact Hin|]. destruct Hin as [Hb Hr].
+    rewrite received_send, bs_at_upd.
+    destruct (Nat.eqb_spec b db) as [->|Hnb].
+    - rewrite Nat.eqb_refl. destruct (Nat.ltb_spec db (length st)); [|lia]. cbn [andb].
+      destruct (Nat.eqb_spec r dr) as [->|Hnr].
+      + rewrite Nat.eqb_refl. destruct (Nat.ltb_spec dr (length (nth db st []))); [|lia].
+        cbn [andb]. split; reflexivity.
+      + destruct (Nat.eqb_spec dr r); [congruence|]. cbn [andb]. split; reflexivity.
+    - destruct (Nat.eqb_spec db b); [congruence|]. cbn [andb]. split; reflexivity.
   Qed.
 
-  Lemma send_many_spec m e b r : forall dests (st : @estate A) st' out,
-    send_many m st dests e = (st', out) -> inr st b r -> allmode m st ->
-    inr st' b r /\ allmode m st' /\
-    received out b r ++ buf_at st' b r
-    = buf_at st b r ++
-      flat_map (fun '(db, dr) => if Nat.eqb b db && Nat.eqb r dr then [e] else []) dests.
+  (** ** invariants of the form "every batcher satisfies P, every batch sent satisfies Q" *)
+  Definition allP (P : @bstate A -> Prop) (st : @bstates A) : Prop := forall b r, P (bs_at st b r).
+  Definition allQ (Q : list (elem A) -> Prop) (out : @eout A) : Prop :=
+    Forall (fun x => Q (snd x)) out.
+  Definition binv (m : batch_mode) (P : @bstate A -> Prop) (Q : list (elem A) -> Prop) : Prop :=
+    (forall now bs e, P bs ->
+       P (fst (enqueue m now bs e)) /\ Forall Q (snd (enqueue m now bs e))) /\
+    (forall now bs, P bs -> P (fst (flush now bs)) /\ Forall Q (snd (flush now bs))).
+
+  Lemma send_to_inv m P Q now (st : @bstates A) db dr e :
+    binv m P Q -> allP P st ->
+    allP P (fst (send_to m now st db dr e)) /\ allQ Q (snd (send_to m now st db dr e)).
   Proof.
-    induction dests as [|[db dr] ds IH]; intros st st' out H Hin Hm; cbn [send_many] in H.
-    - inversion H; subst. cbn [flat_map]. split; [exact Hin|]. split; [exact Hm|].
-      unfold received; cbn [flat_map app]. now rewrite app_nil_r.
-    - destruct (send_to m st db dr e) as [st1 o1] eqn:E1.
-      destruct (send_many m st1 ds e) as [st2 o2] eqn:E2. inversion H; subst st' out; clear H.
-      destruct (send_to_spec _ _ _ _ _ _ _ _ _ E1 Hin Hm) as [Hin1 [Hm1 Hs1]].
-      destruct (IH _ _ _ E2 Hin1 Hm1) as [Hin2 [Hm2 Hs2]].
-      split; [exact Hin2|]. split; [exact Hm2|].
-      cbn [flat_map]. rewrite received_app, <- app_assoc, Hs2, app_assoc, Hs1, <- app_assoc.
-      reflexivity.
+    intros [He _] Hst. unfold send_to. fold (bs_at st db dr).
+    destruct (He now (bs_at st db dr) e (Hst db dr)) as [HP HQ].
+    destruct (enqueue m now (bs_at st db dr) e) as [bs1 sent]. cbn [fst snd] in *. split.
+    - intros b r. rewrite bs_at_upd.
+      destruct (Nat.eqb db b && Nat.ltb b (length st)); [|apply Hst].
+      destruct (Nat.eqb dr r && Nat.ltb r (length (nth b st []))); [exact HP|apply Hst].
+    - unfold allQ. rewrite Forall_map. cbn [snd]. exact HQ.
+  Qed.
+
+  Lemma send_many_inv m P Q now e : binv m P Q -> forall dests (st : @bstates A),
+    allP P st ->
+    allP P (fst (send_many m now st dests e)) /\ allQ Q (snd (send_many m now st dests e)).
+  Proof.
+    intros Hb. induction dests as [|[db dr] ds IH]; intros st Hst; cbn [send_many].
+    - split; [exact Hst|constructor].
+    - destruct (send_to_inv m P Q now st db dr e Hb Hst) as [H1 H2].
+      destruct (send_to m now st db dr e) as [st1 o1]. cbn [fst snd] in *.
+      destruct (IH st1 H1) as [H3 H4].
+      destruct (send_many m now st1 ds e) as [st2 o2]. cbn [fst snd] in *.
+      split; [exact H3|]. apply Forall_app. split; assumption.
   Qed.
 
   (** ** flush_all *)
-  Lemma nth_map_nil {X Y} (per : list X) r : nth r (map (fun _ => @nil Y) per) [] = [].
-  Proof. revert r; induction per as [|x per IH]; intros [|r]; cbn [map nth]; auto. Qed.
-
-  Lemma flush_all_spec (st : @estate A) st' out b r :
-    flush_all st = (st', out) ->
-    (inr st b r -> inr st' b r) /\ (forall b0 r0, buf_at st' b0 r0 = []) /\
-    received out b r = buf_at st b r.
+  Lemma bs_at_flush_all now (st : @bstates A) b r :
+    bs_at (fst (flush_all now st)) b r = fst (flush now (bs_at st b r)).
   Proof.
-    unfold flush_all. intros H. inversion H; subst st' out; clear H. split; [|split].
-    - unfold inr. intros [H1 H2]. rewrite map_length. split; [exact H1|].
-      rewrite (nth_map_in _ _ _ _ []) by exact H1.
-      now rewrite map_length.
-    - intros b0 r0. unfold buf_at.
-      destruct (Nat.ltb_spec b0 (length st)) as [Hlt|Hge].
-      + rewrite (nth_map_in _ _ _ _ []) by exact Hlt.
-        apply nth_map_nil.
-      + rewrite (nth_overflow (map _ st)) by (rewrite map_length; exact Hge).
-        destruct r0; reflexivity.
-    - unfold received. rewrite flat_map_flat_map.
+    unfold flush_all, bs_at. cbn [fst].
+    set (f := fun bs : @bstate A => fst (flush now bs)).
+    change (nth r (nth b (map (map f) st) []) ([], 0%N) = f (nth r (nth b st []) ([], 0%N))).
+    pose proof (map_nth (map f) st [] b) as H1. cbn [map] in H1. rewrite H1.
+    pose proof (map_nth f (nth b st []) ([], 0%N) r) as H2.
+    change (f ([], 0%N)) with (@nil (elem A), 0%N) in H2. exact H2.
+  Qed.
+
+  Lemma flush_all_inr now (st : @bstates A) b r :
+    inr st b r -> inr (fst (flush_all now st)) b r.
+  Proof.
+    unfold flush_all, inr. cbn [fst]. intros [H1 H2]. rewrite map_length. split; [exact H1|].
+    rewrite (nth_map_in _ _ _ _ []) by exact H1. now rewrite map_length.
+  Qed.
+
+  Lemma received_flush_all now (st : @bstates A) b r :
+    received (snd (flush_all now st)) b r = buf_at st b r.
+  Proof.
+    unfold flush_all, buf_at, bs_at, received. cbn [snd]. rewrite flat_map_flat_map.
+    rewrite (flat_map_ext _
+      (fun '(j, per) => if Nat.eqb b j
+         then (fun per0 : list (@bstate A) => fst (nth r per0 ([], 0%N))) per else [])).
+    - rewrite (pick_nth (fun per0 : list (@bstate A) => fst (nth r per0 ([], 0%N))) [] b).
+      + cbn [Nat.leb]. rewrite Nat.sub_0_r. reflexivity.
+      + destruct r; reflexivity.
+    - intros [j per]. rewrite flat_map_flat_map.
       rewrite (flat_map_ext _
-        (fun '(j, per) => if Nat.eqb b j
-           then (fun per0 : list (list (elem A)) => nth r per0 []) per else [])).
-      + rewrite (pick_nth (fun per0 : list (list (elem A)) => nth r per0 []) [] b).
+        (fun '(j0, bs) => if Nat.eqb r j0
+           then (fun bs0 : @bstate A => if Nat.eqb b j then fst bs0 else []) bs else [])).
+      + rewrite (pick_nth (fun bs0 : @bstate A => if Nat.eqb b j then fst bs0 else []) ([], 0%N) r).
         * cbn [Nat.leb]. rewrite Nat.sub_0_r. reflexivity.
-        * destruct r; reflexivity.
-      + intros [j per]. rewrite flat_map_flat_map.
-        rewrite (flat_map_ext _
-          (fun '(j0, buf) => if Nat.eqb r j0
-             then (fun buf0 : list (elem A) => if Nat.eqb b j then buf0 else []) buf else [])).
-        * rewrite (pick_nth (fun buf0 : list (elem A) => if Nat.eqb b j then buf0 else []) [] r).
-          -- cbn [Nat.leb]. rewrite Nat.sub_0_r. reflexivity.
-          -- destruct (Nat.eqb b j); reflexivity.
-        * intros [j0 buf]. destruct buf as [|x buf]; cbn [flat_map app].
-          -- destruct (Nat.eqb r j0), (Nat.eqb b j); reflexivity.
-          -- rewrite app_nil_r. destruct (Nat.eqb r j0), (Nat.eqb b j); reflexivity.
+        * destruct (Nat.eqb b j); reflexivity.
+      + intros [j0 [buf ls]]. rewrite flat_map_map. unfold flush. cbn [fst snd].
+        destruct buf as [|x buf]; cbn [flat_map app snd].
+        * destruct (Nat.eqb r j0), (Nat.eqb b j); reflexivity.
+        * rewrite app_nil_r. destruct (Nat.eqb r j0), (Nat.eqb b j); reflexivity.
+  Qed.
+
+  Lemma flush_all_empty now (st : @bstates A) b r : buf_at (fst (flush_all now st)) b r = [].
+  Proof. unfold buf_at. rewrite bs_at_flush_all. apply flush_spec. Qed.
+
+  Lemma flush_all_inv m P Q now (st : @bstates A) :
+    binv m P Q -> allP P st ->
+    allP P (fst (flush_all now st)) /\ allQ Q (snd (flush_all now st)).
+  Proof.
+    intros [_ Hf] Hst. split.
+    - intros b r. rewrite bs_at_flush_all. apply Hf, Hst.
+    - unfold allQ, flush_all. cbn [snd]. apply Forall_forall. intros x Hx.
+      apply in_flat_map in Hx. destruct Hx as [[b per] [Hbp Hx]].
+      apply in_flat_map in Hx. destruct Hx as [[r bs] [Hrb Hx]].
+      apply in_map_iff in Hx. destruct Hx as [batch [<- Hbatch]]. cbn [snd].
+      destruct (in_combine_seq [] _ _ _ _ Hbp) as [-> _].
+      destruct (in_combine_seq ([], 0%N) _ _ _ _ Hrb) as [-> _].
+      rewrite !Nat.sub_0_r in Hbatch.
+      destruct (Hf now _ (Hst b r)) as [_ HQ]. unfold bs_at in HQ.
+      rewrite Forall_forall in HQ. apply HQ. exact Hbatch.
   Qed.
 
   (** ** how many times a receiver occurs in a destination list *)
+  Definition cnt (b r : nat) (e : elem A) (dests : list (nat * nat)) : list (elem A) :=
+    flat_map (fun '(db, dr) => if Nat.eqb b db && Nat.eqb r dr then [e] else []) dests.
+
   Lemma dests_count (T : nat -> list nat) (e : elem A) blocks b r :
     T 0 = [] -> (forall n, NoDup (T n)) ->
-    flat_map (fun '(db, dr) => if Nat.eqb b db && Nat.eqb r dr then [e] else [])
-      (flat_map (fun '(b0, n) => map (fun r0 => (b0, r0)) (T n))
+    cnt b r e (flat_map (fun '(b0, n) => map (fun r0 => (b0, r0)) (T n))
                 (combine (seq 0 (length blocks)) blocks))
     = if existsb (Nat.eqb r) (T (nth b blocks 0)) then [e] else [].
   Proof.
-    intros H0 Hnd. rewrite flat_map_flat_map.
+    intros H0 Hnd. unfold cnt. rewrite flat_map_flat_map.
     rewrite (flat_map_ext _
       (fun '(j, n) => if Nat.eqb b j
          then (fun n0 => if existsb (Nat.eqb r) (T n0) then [e] else []) n else [])).
@@ -545,193 +675,534 @@ Section EndProofs.
   Lemma targets_0 s hash rnd : targets s hash rnd 0 = [].
   Proof. destruct s; reflexivity. Qed.
 
-  (** ** one step of End *)
-  Lemma end_step_spec s m blocks (st : @estate A) x st' out b r :
+  (** the batchers `End::next` enqueues the element into *)
+  Definition dests_of (s : strategy) (blocks : list nat) (x : elem A * N * N) : list (nat * nat) :=
+    let '(e, hash, rnd) := x in
+    match e with
+    | Item _ | Tst _ _ =>
+        flat_map (fun '(b, n) => map (fun r => (b, r)) (targets s hash rnd n))
+                 (combine (seq 0 (length blocks)) blocks)
+    | Wm _ | FAR | Terminate => all_dests blocks
+    | FlushBatch => []
+    end.
+
+  Lemma dests_of_count s blocks (x : elem A * N * N) (e0 : elem A) b r :
     b < length blocks -> r < nth b blocks 0 ->
-    end_step s m blocks st x = (st', out) -> inr st b r -> allmode m st ->
-    inr st' b r /\ allmode m st' /\
-    received out b r ++ buf_at st' b r
-    = buf_at st b r ++ (if addressed s blocks b r x then [fst (fst x)] else []) /\
-    (flushes (fst (fst x)) = true -> buf_at st' b r = []).
+    cnt b r e0 (dests_of s blocks x) = if addressed s blocks b r x then [e0] else [].
   Proof.
-    intros Hb Hr H Hin Hm. destruct x as [[e hash] rnd]. cbn [fst].
-    assert (Hall : forall e0 : elem A,
-      flat_map (fun '(db, dr) => if Nat.eqb b db && Nat.eqb r dr then [e0] else [])
-               (all_dests blocks) = [e0]).
-    { intros e0. unfold all_dests. rewrite (dests_count (fun n => seq 0 n)).
-      - rewrite existsb_seq. cbn [Nat.leb andb]. destruct (Nat.ltb_spec r (0 + nth b blocks 0)); [reflexivity|lia].
+    intros Hb Hr. destruct x as [[e hash] rnd].
+    assert (Hall : cnt b r e0 (all_dests blocks) = [e0]).
+    { unfold all_dests. rewrite (dests_count (fun n => seq 0 n)).
+      - rewrite existsb_seq. cbn [Nat.leb andb].
+        destruct (Nat.ltb_spec r (0 + nth b blocks 0)); [reflexivity|lia].
       - reflexivity.
       - intros n. apply seq_NoDup. }
-    assert (Hdata : forall e0 : elem A,
-      flat_map (fun '(db, dr) => if Nat.eqb b db && Nat.eqb r dr then [e0] else [])
+    assert (Hdata : cnt b r e0
         (flat_map (fun '(b0, n) => map (fun r0 => (b0, r0)) (targets s hash rnd n))
                   (combine (seq 0 (length blocks)) blocks))
       = if existsb (Nat.eqb r) (targets s hash rnd (nth b blocks 0)) then [e0] else []).
-    { intros e0. apply (dests_count (fun n => targets s hash rnd n)).
+    { apply (dests_count (fun n => targets s hash rnd n)).
       - apply targets_0.
       - intros n. apply targets_NoDup. }
-    assert (Hflush : forall e0 (st0 : @estate A) st1 o1,
-      send_many m st0 (all_dests blocks) e0 = (st1, o1) -> inr st0 b r -> allmode m st0 ->
-      forall st2 o2, flush_all st1 = (st2, o2) ->
-      inr st2 b r /\ allmode m st2 /\
-      received (o1 ++ o2) b r ++ buf_at st2 b r = buf_at st0 b r ++ [e0] /\
-      buf_at st2 b r = []).
-    { intros e0 st0 st1 o1 E1 Hin0 Hm0 st2 o2 E2.
-      destruct (send_many_spec _ _ b r _ _ _ _ E1 Hin0 Hm0) as [Hin1 [Hm1 Hs1]].
-      rewrite Hall in Hs1.
-      destruct (flush_all_spec _ _ _ b r E2) as [Hin2 [Hemp Hrec]].
-      split; [exact (Hin2 Hin1)|]. split; [intros b0 r0 _; apply Hemp|].
-      split; [|apply Hemp].
-      rewrite received_app, Hrec, Hemp, app_nil_r. exact Hs1. }
-    cbn [end_step] in H.
-    destruct e as [v|v t|t| | |]; cbn [addressed flushes].
-    - destruct (send_many_spec _ _ b r _ _ _ _ H Hin Hm) as [Hin1 [Hm1 Hs1]].
-      rewrite Hdata in Hs1. repeat (split; [assumption|]). discriminate.
-    - destruct (send_many_spec _ _ b r _ _ _ _ H Hin Hm) as [Hin1 [Hm1 Hs1]].
-      rewrite Hdata in Hs1. repeat (split; [assumption|]). discriminate.
-    - destruct (send_many_spec _ _ b r _ _ _ _ H Hin Hm) as [Hin1 [Hm1 Hs1]].
-      rewrite Hall in Hs1. repeat (split; [assumption|]). discriminate.
-    - destruct (flush_all_spec _ _ _ b r H) as [Hin2 [Hemp Hrec]].
-      split; [exact (Hin2 Hin)|]. split; [intros b0 r0 _; apply Hemp|].
-      split; [|intros _; apply Hemp].
-      rewrite Hrec, Hemp, !app_nil_r. reflexivity.
-    - destruct (send_many m st (all_dests blocks) Terminate) as [st1 o1] eqn:E1.
-      destruct (flush_all st1) as [st2 o2] eqn:E2. inversion H; subst st' out; clear H.
-      destruct (Hflush _ _ _ _ E1 Hin Hm _ _ E2) as [H1 [H2 [H3 H4]]].
-      repeat (split; [assumption|]). intros _; exact H4.
-    - destruct (send_many m st (all_dests blocks) FAR) as [st1 o1] eqn:E1.
-      destruct (flush_all st1) as [st2 o2] eqn:E2. inversion H; subst st' out; clear H.
-      destruct (Hflush _ _ _ _ E1 Hin Hm _ _ E2) as [H1 [H2 [H3 H4]]].
-      repeat (split; [assumption|]). intros _; exact H4.
+    destruct e; cbn [dests_of addressed]; try exact Hall; try exact Hdata. reflexivity.
   Qed.
 
-  Definition elem_of (x : elem A * N * N) : elem A := fst (fst x).
-
-  (** ** the run invariant, from an arbitrary state *)
-  Lemma end_run_spec s m blocks b r :
-    b < length blocks -> r < nth b blocks 0 ->
-    forall l (st : @estate A) st' out,
-      run_from (end_machine s m blocks) st l = (st', out) -> inr st b r -> allmode m st ->
-      inr st' b r /\ allmode m st' /\
-      received out b r ++ buf_at st' b r
-      = buf_at st b r ++ map (fun x => fst (fst x)) (filter (addressed s blocks b r) l).
+  (** ** send_many: per receiver, nothing lost or reordered *)
+  Lemma allmode_binv m : binv m (fun bs : @bstate A => mode_ok m (fst bs)) (fun _ => True).
   Proof.
-    intros Hb Hr. induction l as [|x l IH]; intros st st' out H Hin Hm.
-    - cbn [run_from] in H. inversion H; subst. cbn [filter map].
-      split; [exact Hin|]. split; [exact Hm|]. unfold received. cbn [flat_map app].
-      now rewrite app_nil_r.
-    - cbn [run_from end_machine mstep] in H.
-      destruct (end_step s m blocks st x) as [st1 o1] eqn:E1.
-      change (run_from {| mstate := estate; minit := einit blocks; mstep := end_step s m blocks |} st1 l)
-        with (run_from (end_machine s m blocks) st1 l) in H.
-      destruct (run_from (end_machine s m blocks) st1 l) as [st2 o2] eqn:E2.
-      inversion H; subst st' out; clear H.
-      destruct (end_step_spec _ _ _ _ _ _ _ _ _ Hb Hr E1 Hin Hm) as [Hin1 [Hm1 [Hs1 _]]].
+    split.
+    - intros now bs e H. destruct (enqueue m now bs e) as [bs1 sent] eqn:E.
+      destruct (enqueue_spec _ _ _ _ _ _ E H) as [H1 _]. cbn [fst snd].
+      split; [exact H1|]. apply Forall_forall. intros; exact I.
+    - intros now bs H. split; [|apply Forall_forall; intros; exact I].
+      destruct (flush_spec now bs) as [_ [E _]]. rewrite E. intros _; reflexivity.
+  Qed.
+
+  Lemma send_many_spec m now e b r : forall dests (st : @bstates A) st' out,
+    send_many m now st dests e = (st', out) -> inr st b r -> allmode m st ->
+    inr st' b r /\ allmode m st' /\
+    received out b r ++ buf_at st' b r = buf_at st b r ++ cnt b r e dests.
+  Proof.
+    induction dests as [|[db dr] ds IH]; intros st st' out H Hin Hm; cbn [send_many] in H.
+    - inversion H; subst. cbn [cnt flat_map]. split; [exact Hin|]. split; [exact Hm|].
+      unfold received; cbn [flat_map app]. now rewrite app_nil_r.
+    - destruct (send_to_at m now st db dr e b r Hin) as [Hin1 [Hbs Hrc]].
+      destruct (send_to_inv m _ _ now st db dr e (allmode_binv m) Hm) as [Hm1 _].
+      destruct (send_to m now st db dr e) as [st1 o1] eqn:E1. cbn [fst snd] in *.
+      destruct (send_many m now st1 ds e) as [st2 o2] eqn:E2. inversion H; subst st' out; clear H.
       destruct (IH _ _ _ E2 Hin1 Hm1) as [Hin2 [Hm2 Hs2]].
       split; [exact Hin2|]. split; [exact Hm2|].
+      unfold cnt. cbn [flat_map]. fold (cnt b r e ds).
+      rewrite received_app, <- app_assoc, Hs2, !app_assoc. f_equal.
+      unfold buf_at at 1. rewrite Hrc, Hbs.
+      destruct (Nat.eqb b db && Nat.eqb r dr) eqn:Eq.
+      + apply andb_true_iff in Eq. destruct Eq as [Eb Er].
+        apply Nat.eqb_eq in Eb. apply Nat.eqb_eq in Er. subst db dr.
+        destruct (enqueue m now (bs_at st b r) e) as [bs1 sent] eqn:E.
+        cbn [fst snd]. exact (proj2 (enqueue_spec _ _ _ _ _ _ E (Hm b r))).
+      + cbn [app]. now rewrite app_nil_r.
+  Qed.
+
+  (** ** `End::next` as "enqueue towards the destinations, then flush everything if the
+      element is FlushAndRestart / Terminate / FlushBatch" *)
+  Definition step_norm clock s m blocks (st : @estate A) (x : elem A * N * N) : @estate A * @eout A :=
+    let now := clock (fst st) in
+    let '(st1, o1) := send_many m now (snd st) (dests_of s blocks x) (elem_of x) in
+    let '(st2, o2) := if flushes (elem_of x) then flush_all now st1 else (st1, []) in
+    ((S (fst st), st2), o1 ++ o2).
+
+  Lemma end_step_norm clock s m blocks (st : @estate A) x :
+    end_step clock s m blocks st x = step_norm clock s m blocks st x.
+  Proof.
+    destruct st as [k bst], x as [[e hash] rnd].
+    unfold end_step, step_norm, elem_of. cbn [fst snd].
+    destruct e; cbn [dests_of flushes send_many].
+    - destruct (send_many _ _ _ _ _) as [st1 o1]. now rewrite app_nil_r.
+    - destruct (send_many _ _ _ _ _) as [st1 o1]. now rewrite app_nil_r.
+    - destruct (send_many _ _ _ _ _) as [st1 o1]. now rewrite app_nil_r.
+    - destruct (flush_all _ _) as [st2 o2]. reflexivity.
+    - destruct (send_many _ _ _ _ _) as [st1 o1]. destruct (flush_all _ _) as [st2 o2]. reflexivity.
+    - destruct (send_many _ _ _ _ _) as [st1 o1]. destruct (flush_all _ _) as [st2 o2]. reflexivity.
+  Qed.
+
+  (** ** one step of End *)
+  Lemma end_step_spec clock s m blocks (st : @estate A) x st' out b r :
+    b < length blocks -> r < nth b blocks 0 ->
+    end_step clock s m blocks st x = (st', out) -> inr (snd st) b r -> allmode m (snd st) ->
+    fst st' = S (fst st) /\ inr (snd st') b r /\ allmode m (snd st') /\
+    received out b r ++ buf_at (snd st') b r
+    = buf_at (snd st) b r ++ (if addressed s blocks b r x then [elem_of x] else []) /\
+    (flushes (elem_of x) = true -> buf_at (snd st') b r = []).
+  Proof.
+    intros Hb Hr H Hin Hm. rewrite end_step_norm in H. unfold step_norm in H.
+    destruct (send_many m (clock (fst st)) (snd st) (dests_of s blocks x) (elem_of x))
+      as [st1 o1] eqn:E1.
+    destruct (send_many_spec _ _ _ b r _ _ _ _ E1 Hin Hm) as [Hin1 [Hm1 Hs1]].
+    rewrite (dests_of_count s blocks x (elem_of x) b r Hb Hr) in Hs1.
+    destruct (flushes (elem_of x)).
+    - pose proof (flush_all_inr (clock (fst st)) st1 b r Hin1) as Hin2.
+      pose proof (received_flush_all (clock (fst st)) st1 b r) as Hrc.
+      pose proof (flush_all_empty (clock (fst st)) st1) as Hemp.
+      destruct (flush_all (clock (fst st)) st1) as [st2 o2]. cbn [fst snd] in *.
+      inversion H; subst st' out; clear H. cbn [fst snd].
+      split; [reflexivity|]. split; [exact Hin2|].
+      split; [intros b0 r0 _; apply Hemp|]. split; [|intros _; apply Hemp].
+      rewrite received_app, Hrc, Hemp, app_nil_r. exact Hs1.
+    - inversion H; subst st' out; clear H. cbn [fst snd].
+      split; [reflexivity|]. split; [exact Hin1|]. split; [exact Hm1|].
+      split; [|discriminate]. rewrite app_nil_r. exact Hs1.
+  Qed.
+
+  Lemma end_step_inv clock s m blocks P Q (st : @estate A) x :
+    binv m P Q -> allP P (snd st) ->
+    allP P (snd (fst (end_step clock s m blocks st x))) /\
+    allQ Q (snd (end_step clock s m blocks st x)).
+  Proof.
+    intros Hb Hst. rewrite end_step_norm. unfold step_norm.
+    destruct (send_many_inv m P Q (clock (fst st)) (elem_of x) Hb (dests_of s blocks x) _ Hst)
+      as [H1 H2].
+    destruct (send_many m (clock (fst st)) (snd st) (dests_of s blocks x) (elem_of x))
+      as [st1 o1]. cbn [fst snd] in *.
+    destruct (flushes (elem_of x)).
+    - destruct (flush_all_inv m P Q (clock (fst st)) st1 Hb H1) as [H3 H4].
+      destruct (flush_all (clock (fst st)) st1) as [st2 o2]. cbn [fst snd] in *.
+      split; [exact H3|]. apply Forall_app. split; assumption.
+    - cbn [fst snd]. split; [exact H1|]. apply Forall_app. split; [exact H2|constructor].
+  Qed.
+
+  (** ** the run invariants, from an arbitrary state *)
+  Lemma run_from_cons clock t0 s m blocks (st : @estate A) x l :
+    run_from (end_machine clock t0 s m blocks) st (x :: l)
+    = let '(st1, o1) := end_step clock s m blocks st x in
+      let '(st2, o2) := run_from (end_machine clock t0 s m blocks) st1 l in (st2, o1 ++ o2).
+  Proof. reflexivity. Qed.
+
+  Lemma end_run_spec clock t0 s m blocks b r :
+    b < length blocks -> r < nth b blocks 0 ->
+    forall l (st : @estate A) st' out,
+      run_from (end_machine clock t0 s m blocks) st l = (st', out) ->
+      inr (snd st) b r -> allmode m (snd st) ->
+      fst st' = fst st + length l /\ inr (snd st') b r /\ allmode m (snd st') /\
+      received out b r ++ buf_at (snd st') b r
+      = buf_at (snd st) b r ++ map (fun x => fst (fst x)) (filter (addressed s blocks b r) l).
+  Proof.
+    intros Hb Hr. induction l as [|x l IH]; intros st st' out H Hin Hm.
+    - cbn [run_from] in H. inversion H; subst. cbn [filter map length].
+      split; [lia|]. split; [exact Hin|]. split; [exact Hm|]. unfold received. cbn [flat_map app].
+      now rewrite app_nil_r.
+    - rewrite run_from_cons in H.
+      destruct (end_step clock s m blocks st x) as [st1 o1] eqn:E1.
+      destruct (run_from (end_machine clock t0 s m blocks) st1 l) as [st2 o2] eqn:E2.
+      inversion H; subst st' out; clear H.
+      destruct (end_step_spec _ _ _ _ _ _ _ _ _ _ Hb Hr E1 Hin Hm) as [Hk1 [Hin1 [Hm1 [Hs1 _]]]].
+      destruct (IH _ _ _ E2 Hin1 Hm1) as [Hk2 [Hin2 [Hm2 Hs2]]].
+      split; [cbn [length]; lia|]. split; [exact Hin2|]. split; [exact Hm2|].
       rewrite received_app, <- app_assoc, Hs2, app_assoc, Hs1, <- app_assoc. f_equal.
-      cbn [filter]. destruct (addressed s blocks b r x); reflexivity.
+      cbn [filter]. unfold elem_of. destruct (addressed s blocks b r x); reflexivity.
+  Qed.
+
+  Lemma end_run_inv clock t0 s m blocks P Q : binv m P Q ->
+    forall l (st : @estate A), allP P (snd st) ->
+      allP P (snd (fst (run_from (end_machine clock t0 s m blocks) st l))) /\
+      allQ Q (snd (run_from (end_machine clock t0 s m blocks) st l)).
+  Proof.
+    intros Hb. induction l as [|x l IH]; intros st Hst.
+    - cbn [run_from fst snd]. split; [exact Hst|constructor].
+    - rewrite run_from_cons.
+      destruct (end_step_inv clock s m blocks P Q st x Hb Hst) as [H1 H2].
+      destruct (end_step clock s m blocks st x) as [st1 o1]. cbn [fst snd] in *.
+      destruct (IH st1 H1) as [H3 H4].
+      destruct (run_from (end_machine clock t0 s m blocks) st1 l) as [st2 o2]. cbn [fst snd] in *.
+      split; [exact H3|]. apply Forall_app. split; assumption.
   Qed.
 
   (** ** the initial state *)
-  Lemma einit_inr blocks b r :
-    b < length blocks -> r < nth b blocks 0 -> inr (@einit A blocks) b r.
+  Lemma einit_inr t0 blocks b r :
+    b < length blocks -> r < nth b blocks 0 -> inr (snd (@einit A t0 blocks)) b r.
   Proof.
-    intros Hb Hr. unfold inr, einit. rewrite map_length. split; [exact Hb|].
+    intros Hb Hr. unfold inr, einit. cbn [snd]. rewrite map_length. split; [exact Hb|].
     rewrite (nth_map_in _ _ _ _ 0) by exact Hb. now rewrite repeat_length.
   Qed.
 
-  Lemma einit_empty blocks b r : buf_at (@einit A blocks) b r = [].
+  Lemma einit_empty t0 blocks b r : buf_at (snd (@einit A t0 blocks)) b r = [].
   Proof.
-    unfold buf_at, einit. destruct (Nat.ltb_spec b (length blocks)) as [Hlt|Hge].
-    - rewrite (nth_map_in _ _ _ _ 0) by exact Hlt. apply nth_repeat.
+    unfold buf_at, bs_at, einit. cbn [snd]. destruct (Nat.ltb_spec b (length blocks)) as [Hlt|Hge].
+    - rewrite (nth_map_in _ _ _ _ 0) by exact Hlt.
+      destruct (Nat.ltb_spec r (nth b blocks 0)) as [Hr|Hr].
+      + now rewrite nth_repeat_lt by exact Hr.
+      + rewrite nth_overflow by (now rewrite repeat_length). reflexivity.
     - rewrite (nth_overflow (map _ blocks)) by (rewrite map_length; exact Hge).
       destruct r; reflexivity.
   Qed.
 
+  Lemma einit_last t0 blocks b r :
+    b < length blocks -> r < nth b blocks 0 -> last_at (snd (@einit A t0 blocks)) b r = t0.
+  Proof.
+    intros Hb Hr. unfold last_at, bs_at, einit. cbn [snd].
+    rewrite (nth_map_in _ _ _ _ 0) by exact Hb.
+    now rewrite nth_repeat_lt by exact Hr.
+  Qed.
+
+  Lemma einit_allmode m t0 blocks : allmode m (snd (@einit A t0 blocks)).
+  Proof. intros b0 r0 _. apply einit_empty. Qed.
+
+  (** the state of End after pulling [l], and what the theorems observe of it *)
+  Definition end_state clock t0 s m blocks (l : list (elem A * N * N)) : @estate A :=
+    fst (run_from (end_machine clock t0 s m blocks) (einit t0 blocks) l).
+  Definition steps_of (st : @estate A) : nat := fst st.
+  Definition buffer_of (st : @estate A) (b r : nat) : list (elem A) := buf_at (snd st) b r.
+  Definition last_send_of (st : @estate A) (b r : nat) : N := last_at (snd st) b r.
+
+  Lemma end_state_run clock t0 s m blocks l :
+    run_from (end_machine clock t0 s m blocks) (einit t0 blocks) l
+    = (end_state clock t0 s m blocks l, run (end_machine clock t0 s m blocks) l).
+  Proof. unfold end_state, run. cbn [minit end_machine]. now destruct (run_from _ _ l). Qed.
+
+  Lemma end_state_snoc clock t0 s m blocks l x :
+    end_state clock t0 s m blocks (l ++ [x])
+    = fst (end_step clock s m blocks (end_state clock t0 s m blocks l) x) /\
+    run (end_machine clock t0 s m blocks) (l ++ [x])
+    = run (end_machine clock t0 s m blocks) l
+      ++ snd (end_step clock s m blocks (end_state clock t0 s m blocks l) x).
+  Proof.
+    pose proof (end_state_run clock t0 s m blocks (l ++ [x])) as H.
+    rewrite run_from_app, end_state_run in H. rewrite run_from_cons in H.
+    destruct (end_step clock s m blocks (end_state clock t0 s m blocks l) x) as [st2 o2].
+    cbn [run_from] in H. rewrite app_nil_r in H. inversion H. cbn [fst snd]. split; reflexivity.
+  Qed.
+
+  (** the run from the initial state: the sequence invariant *)
+  Lemma end_init_spec clock t0 s m blocks l b r :
+    b < length blocks -> r < nth b blocks 0 ->
+    steps_of (end_state clock t0 s m blocks l) = length l /\
+    inr (snd (end_state clock t0 s m blocks l)) b r /\
+    allmode m (snd (end_state clock t0 s m blocks l)) /\
+    received (run (end_machine clock t0 s m blocks) l) b r
+      ++ buffer_of (end_state clock t0 s m blocks l) b r
+    = map (fun x => fst (fst x)) (filter (addressed s blocks b r) l).
+  Proof.
+    intros Hb Hr.
+    destruct (end_run_spec clock t0 s m blocks b r Hb Hr l _ _ _
+                (end_state_run clock t0 s m blocks l) (einit_inr _ _ _ _ Hb Hr)
+                (einit_allmode m t0 blocks)) as [Hk [Hin [Hm Hs]]].
+    rewrite einit_empty in Hs. cbn [app] in Hs. cbn [einit fst] in Hk.
+    repeat (split; [assumption|]). exact Hs.
+  Qed.
+
   (** ** everything buffered is delivered by a flushing element *)
-  Lemma end_link_flush s m blocks l x b r :
+  Lemma end_link_flush clock t0 s m blocks l x b r :
     b < length blocks -> r < nth b blocks 0 -> flushes (fst (fst x)) = true ->
-    received (run (end_machine s m blocks) (l ++ [x])) b r
+    received (run (end_machine clock t0 s m blocks) (l ++ [x])) b r
     = map (fun x => fst (fst x)) (filter (addressed s blocks b r) l)
       ++ (if addressed s blocks b r x then [fst (fst x)] else []).
   Proof.
-    intros Hb Hr Hf. unfold run. rewrite run_from_app.
-    destruct (run_from (end_machine s m blocks) (minit (end_machine s m blocks)) l)
-      as [st1 o1] eqn:E1.
-    cbn [run_from end_machine mstep].
-    destruct (end_step s m blocks st1 x) as [st2 o2] eqn:E2. cbn [snd].
-    cbn [minit end_machine] in E1.
-    change (run_from {| mstate := estate; minit := einit blocks; mstep := end_step s m blocks |}
-              (einit blocks) l)
-      with (run_from (end_machine s m blocks) (einit blocks) l) in E1.
-    destruct (end_run_spec s m blocks b r Hb Hr l _ _ _ E1 (einit_inr _ _ _ Hb Hr))
-      as [Hin1 [Hm1 Hs1]].
-    { intros b0 r0 _. apply einit_empty. }
-    rewrite einit_empty in Hs1. cbn [app] in Hs1.
-    destruct (end_step_spec _ _ _ _ _ _ _ _ _ Hb Hr E2 Hin1 Hm1) as [_ [_ [Hs2 He]]].
-    rewrite (He Hf), app_nil_r in Hs2.
-    rewrite app_nil_r, received_app, Hs2, app_assoc, Hs1. reflexivity.
+    intros Hb Hr Hf.
+    destruct (end_init_spec clock t0 s m blocks l b r Hb Hr) as [_ [Hin1 [Hm1 Hs1]]].
+    destruct (end_state_snoc clock t0 s m blocks l x) as [_ ->].
+    destruct (end_step clock s m blocks (end_state clock t0 s m blocks l) x) as [st2 o2] eqn:E2.
+    destruct (end_step_spec _ _ _ _ _ _ _ _ b r Hb Hr E2 Hin1 Hm1) as [_ [_ [_ [Hs2 He]]]].
+    rewrite (He Hf), app_nil_r in Hs2. cbn [snd].
+    rewrite received_app, Hs2, app_assoc. unfold buffer_of in Hs1. now rewrite Hs1.
   Qed.
 
   Theorem end_link_sequence :
-    forall s m blocks (l : list (elem A * N * N)) hash rnd b r,
+    forall clock t0 s m blocks (l : list (elem A * N * N)) hash rnd b r,
       b < length blocks -> r < nth b blocks 0 ->
       (forall x, In x l -> fst (fst x) <> Terminate) ->
-      (match m with BFixed n => 1 <= n | BSingle => True end) ->
-      received (run (end_machine s m blocks) (l ++ [(Terminate, hash, rnd)])) b r
+      (match m with BFixed n => 1 <= n | BAdaptive n _ => 1 <= n | BSingle => True end) ->
+      received (run (end_machine clock t0 s m blocks) (l ++ [(Terminate, hash, rnd)])) b r
       = map (fun x => fst (fst x)) (filter (addressed s blocks b r) l) ++ [Terminate].
   Proof.
-    intros s m blocks l hash rnd b r Hb Hr _ _.
-    now rewrite (end_link_flush s m blocks l (Terminate, hash, rnd) b r Hb Hr eq_refl).
+    intros clock t0 s m blocks l hash rnd b r Hb Hr _ _.
+    now rewrite (end_link_flush clock t0 s m blocks l (Terminate, hash, rnd) b r Hb Hr eq_refl).
   Qed.
 
   Theorem end_round_flushed :
-    forall s m blocks (l : list (elem A * N * N)) hash rnd b r,
+    forall clock t0 s m blocks (l : list (elem A * N * N)) hash rnd b r,
       b < length blocks -> r < nth b blocks 0 ->
       (forall x, In x l -> fst (fst x) <> Terminate) ->
-      (match m with BFixed n => 1 <= n | BSingle => True end) ->
-      received (run (end_machine s m blocks) (l ++ [(FAR, hash, rnd)])) b r
+      (match m with BFixed n => 1 <= n | BAdaptive n _ => 1 <= n | BSingle => True end) ->
+      received (run (end_machine clock t0 s m blocks) (l ++ [(FAR, hash, rnd)])) b r
       = map (fun x => fst (fst x)) (filter (addressed s blocks b r) l) ++ [FAR].
   Proof.
-    intros s m blocks l hash rnd b r Hb Hr _ _.
-    now rewrite (end_link_flush s m blocks l (FAR, hash, rnd) b r Hb Hr eq_refl).
+    intros clock t0 s m blocks l hash rnd b r Hb Hr _ _.
+    now rewrite (end_link_flush clock t0 s m blocks l (FAR, hash, rnd) b r Hb Hr eq_refl).
   Qed.
 
   Theorem end_flushbatch_flushed :
-    forall s m blocks (l : list (elem A * N * N)) hash rnd b r,
+    forall clock t0 s m blocks (l : list (elem A * N * N)) hash rnd b r,
       b < length blocks -> r < nth b blocks 0 ->
       (forall x, In x l -> fst (fst x) <> Terminate) ->
-      (match m with BFixed n => 1 <= n | BSingle => True end) ->
-      received (run (end_machine s m blocks) (l ++ [(FlushBatch, hash, rnd)])) b r
+      (match m with BFixed n => 1 <= n | BAdaptive n _ => 1 <= n | BSingle => True end) ->
+      received (run (end_machine clock t0 s m blocks) (l ++ [(FlushBatch, hash, rnd)])) b r
       = map (fun x => fst (fst x)) (filter (addressed s blocks b r) l).
   Proof.
-    intros s m blocks l hash rnd b r Hb Hr _ _.
-    rewrite (end_link_flush s m blocks l (FlushBatch, hash, rnd) b r Hb Hr eq_refl).
+    intros clock t0 s m blocks l hash rnd b r Hb Hr _ _.
+    rewrite (end_link_flush clock t0 s m blocks l (FlushBatch, hash, rnd) b r Hb Hr eq_refl).
     cbn [addressed]. now rewrite app_nil_r.
   Qed.
 
   (** mid-stream safety: at any point what a receiver got is a prefix of what was addressed
       to it (the remainder is exactly its buffer) *)
   Theorem end_prefix :
-    forall s m blocks (l : list (elem A * N * N)) b r,
+    forall clock t0 s m blocks (l : list (elem A * N * N)) b r,
       b < length blocks -> r < nth b blocks 0 ->
       exists buf,
-        received (run (end_machine s m blocks) l) b r ++ buf
+        received (run (end_machine clock t0 s m blocks) l) b r ++ buf
         = map (fun x => fst (fst x)) (filter (addressed s blocks b r) l).
   Proof.
-    intros s m blocks l b r Hb Hr. unfold run.
-    destruct (run_from (end_machine s m blocks) (minit (end_machine s m blocks)) l)
-      as [st1 o1] eqn:E1.
-    cbn [minit end_machine] in E1.
-    change (run_from {| mstate := estate; minit := einit blocks; mstep := end_step s m blocks |}
-              (einit blocks) l)
-      with (run_from (end_machine s m blocks) (einit blocks) l) in E1.
-    destruct (end_run_spec s m blocks b r Hb Hr l _ _ _ E1 (einit_inr _ _ _ Hb Hr))
-      as [_ [_ Hs1]].
-    { intros b0 r0 _. apply einit_empty. }
-    rewrite einit_empty in Hs1. cbn [app] in Hs1.
-    exists (buf_at st1 b r). cbn [snd]. exact Hs1.
+    intros clock t0 s m blocks l b r Hb Hr.
+    destruct (end_init_spec clock t0 s m blocks l b r Hb Hr) as [_ [_ [_ Hs]]].
+    eexists. exact Hs.
+  Qed.
+
+  (** ... and that buffer is exactly what was addressed to the receiver and not yet sent *)
+  Theorem end_buffer_pending :
+    forall clock t0 s m blocks (l : list (elem A * N * N)) b r,
+      b < length blocks -> r < nth b blocks 0 ->
+      received (run (end_machine clock t0 s m blocks) l) b r
+        ++ buffer_of (end_state clock t0 s m blocks l) b r
+      = map (fun x => fst (fst x)) (filter (addressed s blocks b r) l).
+  Proof. intros clock t0 s m blocks l b r Hb Hr. now apply end_init_spec. Qed.
+
+  (* ---------------------------------------------------------------- *)
+  (** * E2b: the adaptive mode *)
+
+  (** (c) the sequence theorem in the adaptive mode, for EVERY clock: per receiver the
+      concatenation of the batches is exactly the addressed subsequence, in order *)
+  Corollary adaptive_link_sequence :
+    forall clock t0 s n d blocks (l : list (elem A * N * N)) hash rnd b r,
+      b < length blocks -> r < nth b blocks 0 ->
+      received (run (end_machine clock t0 s (BAdaptive n d) blocks) (l ++ [(Terminate, hash, rnd)])) b r
+      = map (fun x => fst (fst x)) (filter (addressed s blocks b r) l) ++ [Terminate].
+  Proof.
+    intros clock t0 s n d blocks l hash rnd b r Hb Hr.
+    now rewrite (end_link_flush clock t0 s _ blocks l (Terminate, hash, rnd) b r Hb Hr eq_refl).
+  Qed.
+
+  (** the clock decides only WHERE the batches are cut: with two arbitrary clocks (and even
+      two different adaptive parameters) every receiver gets the same sequence *)
+  Corollary adaptive_clock_irrelevant :
+    forall clock1 t01 clock2 t02 s n1 d1 n2 d2 blocks (l : list (elem A * N * N)) hash rnd b r,
+      b < length blocks -> r < nth b blocks 0 ->
+      received (run (end_machine clock1 t01 s (BAdaptive n1 d1) blocks) (l ++ [(Terminate, hash, rnd)])) b r
+      = received (run (end_machine clock2 t02 s (BAdaptive n2 d2) blocks) (l ++ [(Terminate, hash, rnd)])) b r.
+  Proof.
+    intros. now rewrite !(end_link_flush _ _ _ _ _ l (Terminate, hash, rnd) b r) by auto.
+  Qed.
+
+  (** (a) size of the batches, for every mode with a positive size and every clock *)
+  Lemma bound_binv m : 1 <= max_size m ->
+    binv m (fun bs : @bstate A => length (fst bs) < max_size m)
+           (fun batch => 1 <= length batch <= max_size m).
+  Proof.
+    intros Hn. split.
+    - intros now bs e Hb.
+      assert (Hl : length (fst bs ++ [e]) = S (length (fst bs)))
+        by (rewrite app_length; cbn [length]; lia).
+      destruct (enqueue_cases m now bs e) as [[Em E]|[[_ [E Hlt]]|[_ [E _]]]];
+        rewrite E; cbn [fst snd].
+      + split; [exact Hb|]. subst m. repeat constructor.
+      + split; [exact Hlt|constructor].
+      + split; [cbn [length]; lia|]. constructor; [lia|constructor].
+    - intros now bs Hb. destruct (flush_spec now bs) as [E _]. rewrite E.
+      destruct (fst bs) as [|x buf] eqn:Eb; cbn [fst snd].
+      + rewrite Eb. split; [exact Hb|constructor].
+      + split; [cbn [length]; lia|]. constructor; [cbn [length] in *; lia|constructor].
+  Qed.
+
+  Theorem end_batch_bound :
+    forall clock t0 s m blocks (l : list (elem A * N * N)),
+      1 <= max_size m ->
+      Forall (fun '(b, r, batch) => 1 <= length batch <= max_size m)
+             (run (end_machine clock t0 s m blocks) l).
+  Proof.
+    intros clock t0 s m blocks l Hn.
+    destruct (end_run_inv clock t0 s m blocks _ _ (bound_binv m Hn) l (einit t0 blocks)) as [_ H].
+    - intros b r. fold (buf_at (snd (@einit A t0 blocks)) b r). rewrite einit_empty.
+      cbn [length]. lia.
+    - unfold allQ in H. eapply Forall_impl; [|exact H]. intros [[b r] batch]. cbn [snd]. auto.
+  Qed.
+
+  Theorem adaptive_batch_bound :
+    forall clock t0 s n d blocks (l : list (elem A * N * N)),
+      1 <= n ->
+      Forall (fun '(b, r, batch) => 1 <= length batch <= n)
+             (run (end_machine clock t0 s (BAdaptive n d) blocks) l).
+  Proof. intros clock t0 s n d. exact (end_batch_bound clock t0 s (BAdaptive n d)). Qed.
+
+  (** (b) a late element flushes *)
+  Lemma send_many_track m now e b r : forall dests (st : @bstates A),
+    inr st b r ->
+    (cnt b r e dests = [] ->
+       bs_at (fst (send_many m now st dests e)) b r = bs_at st b r) /\
+    (cnt b r e dests = [e] ->
+       bs_at (fst (send_many m now st dests e)) b r = fst (enqueue m now (bs_at st b r) e)).
+  Proof.
+    induction dests as [|[db dr] ds IH]; intros st Hin; cbn [send_many].
+    - cbn [fst cnt flat_map]. split; [reflexivity|discriminate].
+    - destruct (send_to_at m now st db dr e b r Hin) as [Hin1 [Hbs _]].
+      destruct (send_to m now st db dr e) as [st1 o1]. cbn [fst] in *.
+      destruct (IH st1 Hin1) as [IH1 IH2].
+      destruct (send_many m now st1 ds e) as [st2 o2]. cbn [fst] in *.
+      unfold cnt. cbn [flat_map]. fold (cnt b r e ds).
+      destruct (Nat.eqb b db && Nat.eqb r dr) eqn:Eq.
+      + apply andb_true_iff in Eq. destruct Eq as [Eb Er].
+        apply Nat.eqb_eq in Eb. apply Nat.eqb_eq in Er. subst db dr.
+        split; [discriminate|]. intros H. cbn [app] in H. inversion H as [H'].
+        rewrite (IH1 H'). exact Hbs.
+      + cbn [app]. rewrite <- Hbs. split; assumption.
+  Qed.
+
+  Lemma enqueue_late n d now (bs : @bstate A) e :
+    (d < now - snd bs)%N -> enqueue (BAdaptive n d) now bs e = (([], now), [fst bs ++ [e]]).
+  Proof.
+    intros H. unfold enqueue. cbv zeta. cbn [fst snd].
+    apply N.ltb_lt in H. rewrite H, orb_true_r. apply flush_snoc.
+  Qed.
+
+  Theorem adaptive_late_flush :
+    forall clock t0 s n d blocks (l : list (elem A * N * N)) x b r,
+      b < length blocks -> r < nth b blocks 0 ->
+      addressed s blocks b r x = true ->
+      (d < clock (length l)
+           - last_send_of (end_state clock t0 s (BAdaptive n d) blocks l) b r)%N ->
+      buffer_of (end_state clock t0 s (BAdaptive n d) blocks (l ++ [x])) b r = [] /\
+      received (run (end_machine clock t0 s (BAdaptive n d) blocks) (l ++ [x])) b r
+      = map (fun x => fst (fst x)) (filter (addressed s blocks b r) (l ++ [x])).
+  Proof.
+    intros clock t0 s n d blocks l x b r Hb Hr Ha Hlate.
+    set (m := BAdaptive n d) in *.
+    destruct (end_init_spec clock t0 s m blocks l b r Hb Hr) as [Hk [Hin _]].
+    destruct (end_init_spec clock t0 s m blocks (l ++ [x]) b r Hb Hr) as [_ [_ [_ Hs]]].
+    assert (He : buffer_of (end_state clock t0 s m blocks (l ++ [x])) b r = []).
+    { destruct (end_state_snoc clock t0 s m blocks l x) as [-> _].
+      rewrite end_step_norm. unfold step_norm.
+      set (st := end_state clock t0 s m blocks l) in *. unfold steps_of in Hk. rewrite Hk.
+      destruct (send_many_track m (clock (length l)) (elem_of x) b r (dests_of s blocks x) (snd st) Hin)
+        as [_ Ht].
+      rewrite (dests_of_count s blocks x (elem_of x) b r Hb Hr), Ha in Ht.
+      specialize (Ht eq_refl).
+      destruct (send_many m (clock (length l)) (snd st) (dests_of s blocks x) (elem_of x))
+        as [st1 o1]. cbn [fst] in Ht.
+      destruct (flushes (elem_of x)).
+      - pose proof (flush_all_empty (clock (length l)) st1 b r) as Hemp.
+        destruct (flush_all (clock (length l)) st1) as [st2 o2]. exact Hemp.
+      - unfold buffer_of, buf_at. cbn [fst snd]. rewrite Ht.
+        unfold m. rewrite enqueue_late by exact Hlate. reflexivity. }
+    split; [exact He|]. rewrite He, app_nil_r in Hs. exact Hs.
+  Qed.
+
+  (** what `last_send` is: the reading at setup until something is sent to the receiver,
+      then the reading of the last step that sent it a batch (not in `Single` mode, which
+      sends without touching `last_send`) *)
+  Definition upd_last (ls now : N) (rcv : list (elem A)) : N :=
+    match rcv with [] => ls | _ => now end.
+
+  Lemma upd_last_app ls now r1 r2 :
+    upd_last (upd_last ls now r1) now r2 = upd_last ls now (r1 ++ r2).
+  Proof. destruct r1, r2; reflexivity. Qed.
+
+  Lemma send_many_last m now e b r : m <> BSingle -> forall dests (st : @bstates A),
+    inr st b r ->
+    inr (fst (send_many m now st dests e)) b r /\
+    last_at (fst (send_many m now st dests e)) b r
+    = upd_last (last_at st b r) now (received (snd (send_many m now st dests e)) b r).
+  Proof.
+    intros Hm. induction dests as [|[db dr] ds IH]; intros st Hin; cbn [send_many].
+    - cbn [fst snd]. split; [exact Hin|reflexivity].
+    - destruct (send_to_at m now st db dr e b r Hin) as [Hin1 [Hbs Hrc]].
+      destruct (send_to m now st db dr e) as [st1 o1]. cbn [fst snd] in *.
+      destruct (IH st1 Hin1) as [Hin2 IH2].
+      destruct (send_many m now st1 ds e) as [st2 o2]. cbn [fst snd] in *.
+      split; [exact Hin2|].
+      rewrite received_app, <- upd_last_app, IH2. f_equal.
+      unfold last_at at 1. rewrite Hbs, Hrc.
+      destruct (Nat.eqb b db && Nat.eqb r dr) eqn:Eq; [|reflexivity].
+      apply andb_true_iff in Eq. destruct Eq as [Eb Er].
+      apply Nat.eqb_eq in Eb. apply Nat.eqb_eq in Er. subst db dr.
+      destruct (enqueue_cases m now (bs_at st b r) e) as [[Em _]|[[_ [E _]]|[_ [E _]]]];
+        [contradiction| |]; rewrite E; cbn [fst snd concat]; [reflexivity|].
+      destruct (fst (bs_at st b r)); reflexivity.
+  Qed.
+
+  Lemma flush_all_last now (st : @bstates A) b r :
+    last_at (fst (flush_all now st)) b r
+    = upd_last (last_at st b r) now (received (snd (flush_all now st)) b r).
+  Proof.
+    unfold last_at. rewrite bs_at_flush_all, received_flush_all. unfold buf_at.
+    destruct (flush_spec now (bs_at st b r)) as [_ [_ [E _]]]. rewrite E.
+    destruct (fst (bs_at st b r)); reflexivity.
+  Qed.
+
+  Theorem last_send_init : forall clock t0 s m blocks b r,
+    b < length blocks -> r < nth b blocks 0 ->
+    last_send_of (end_state clock t0 s m blocks []) b r = t0.
+  Proof. intros. unfold last_send_of, end_state. cbn [run_from fst]. now apply einit_last. Qed.
+
+  Theorem last_send_step : forall clock t0 s m blocks (l : list (elem A * N * N)) x b r,
+    m <> BSingle -> b < length blocks -> r < nth b blocks 0 ->
+    last_send_of (end_state clock t0 s m blocks (l ++ [x])) b r
+    = match received (snd (end_step clock s m blocks (end_state clock t0 s m blocks l) x)) b r with
+      | [] => last_send_of (end_state clock t0 s m blocks l) b r
+      | _ => clock (length l)
+      end.
+  Proof.
+    intros clock t0 s m blocks l x b r Hm Hb Hr.
+    destruct (end_init_spec clock t0 s m blocks l b r Hb Hr) as [Hk [Hin _]].
+    destruct (end_state_snoc clock t0 s m blocks l x) as [-> _].
+    rewrite end_step_norm. unfold step_norm.
+    set (st := end_state clock t0 s m blocks l) in *. unfold steps_of in Hk. rewrite Hk.
+    destruct (send_many_last m (clock (length l)) (elem_of x) b r Hm (dests_of s blocks x) (snd st) Hin)
+      as [Hin1 Hl1].
+    destruct (send_many m (clock (length l)) (snd st) (dests_of s blocks x) (elem_of x))
+      as [st1 o1]. cbn [fst snd] in *.
+    change (match received ?o b r with [] => ?a | _ => ?c end) with (upd_last a c (received o b r)).
+    destruct (flushes (elem_of x)).
+    - pose proof (flush_all_last (clock (length l)) st1 b r) as Hl2.
+      destruct (flush_all (clock (length l)) st1) as [st2 o2]. cbn [fst snd] in *.
+      unfold last_send_of. cbn [snd]. rewrite received_app, <- upd_last_app, Hl2, Hl1. reflexivity.
+    - unfold last_send_of. cbn [fst snd]. rewrite app_nil_r. exact Hl1.
   Qed.
 
   (* ---------------------------------------------------------------- *)
@@ -756,15 +1227,15 @@ Section EndProofs.
   (** every watermark / FlushAndRestart / Terminate of the input reaches every replica of
       every downstream block, in input order *)
   Corollary end_control_reaches_all :
-    forall s m blocks (l : list (elem A * N * N)) hash rnd b r,
+    forall clock t0 s m blocks (l : list (elem A * N * N)) hash rnd b r,
       b < length blocks -> r < nth b blocks 0 ->
       (forall x, In x l -> fst (fst x) <> Terminate) ->
-      (match m with BFixed n => 1 <= n | BSingle => True end) ->
-      filter is_ctrl (received (run (end_machine s m blocks) (l ++ [(Terminate, hash, rnd)])) b r)
+      (match m with BFixed n => 1 <= n | BAdaptive n _ => 1 <= n | BSingle => True end) ->
+      filter is_ctrl (received (run (end_machine clock t0 s m blocks) (l ++ [(Terminate, hash, rnd)])) b r)
       = filter is_ctrl (map (fun x => fst (fst x)) l) ++ [Terminate].
   Proof.
-    intros s m blocks l hash rnd b r Hb Hr Hl Hm.
-    rewrite (end_link_sequence s m blocks l hash rnd b r Hb Hr Hl Hm).
+    intros clock t0 s m blocks l hash rnd b r Hb Hr Hl Hm.
+    rewrite (end_link_sequence clock t0 s m blocks l hash rnd b r Hb Hr Hl Hm).
     rewrite filter_app. cbn [filter is_ctrl]. f_equal.
     apply filter_map_filter. intros x. apply addressed_ctrl.
   Qed.
